@@ -17,22 +17,22 @@ P = {
          "jax trusted; jitted path sampled", TECH + "spec-to-code replay through jax + trace validation of emitted code", "6 C03"),
  "C04": ("TLC checks index bijectivity, output lengths and monitor/rhs refinement on every structural model; replay compares every value by name through the module's own index functions for numpy/jax/C, checks initial values, keyword overrides and all argument orders; TraceEmit validates unpack/store slots of every emitted function of the repository's models against the index maps",
          "argument orders sampled per model (6 of 6 rhs, 6 of 24 scheme)", TECH + "replay + trace validation of emitted code against index maps", "6 C04"),
- "C05": ("TLC checks Exec(explicit_euler) = states + dt*Den on structural models and rate templates (dt in {1/8, 0, -1/4, 4}); replay compares the generated function by name and checks that inputs are not modified (numpy, C, and jitted JAX called with JAX arrays)",
+ "C05": ("TLC checks Exec(explicit_euler) = states + dt*Den on structural models and rate templates (dt in {1/8, 0, -1/4, 4}); replay compares the generated function by name and checks that inputs are not modified (numpy, C, and jitted JAX called with JAX arrays); one generator is asked for the step under every argument order",
          "bounded models", TECH + "spec-to-code replay", "6 C05"),
  "C06": ("the specification's own symbolic differentiator gives g, decides the guard |g| > delta exactly (rational deltas, boundary inputs) and the step; TLC checks the operational scheme against it on 2256 rate templates x 3 deltas; the real generated function is compared on a 72-point grid per template; TraceEmit checks on the emitted generalized Rush-Larsen code of the repository's models that every exponential update sits behind a strict guard on the linearisation alone with exactly the delta passed (rule scheme-guard)",
          "default delta 1e-8 idealised as g # 0 on the rational grid; residual slopes dropped", TECH + "independent differentiator in TLA+, spec-to-code replay", "6 C06"),
- "C07": ("TLC checks hybrid = GRL on stiff states, Euler elsewhere for every stiff subset (incl. foreign names) of structural models; replay uses batches of 12 states with random stiff subsets per generated module",
+ "C07": ("TLC checks hybrid = GRL on stiff states, Euler elsewhere for every stiff subset (incl. foreign names) of structural models; replay uses batches of 12 states with random stiff subsets per generated module, each list padded with more foreign names than the model has states (a parameter, the time, rate names, a repeated state); the schemes of one model object are asked for in varying order",
          "stiff subsets sampled in the replay, exhaustive in the specification", TECH + "spec-to-code replay", "6 C07"),
  "C12": ("TLC checks on every structural model that removal of unused variables changes neither results nor layout and never reads a removed name; replay compares with/without removal by name; TraceEmit checks def-before-use on every emitted function with remove_unused on the repository's models; split sub-models (missing variables) are replayed with removal too",
          "bounded models; three backends in the trace leg, numpy in the replay", TECH + "replay + trace validation (use-before-def)", "6 C12"),
  "C08": ("WellFormed (written from the property) decides acceptance; TLC applies 25 fault kinds at every site of sampled structural models (about 10^5 faulted texts) and checks that the staged loader of the specification rejects exactly the ill-formed ones; a sample of the faulted texts is loaded and generated (numpy + C) in the real library: an ill-formed text that yields code is a violation; arbitrary token strings at file level (OdeFile.tla: the statement grammar as a recursive-descent parser; MC_File.tla: every sequence of up to 3-4 statements and every single-token mutation of complete models) are given to the real loader, which may accept only what the specification's model of the string finds well formed",
          "one fault per text; base models with 1-2 intermediates", TECH + "fault enumeration in TLA+, spec-to-code replay", "6 C08"),
  "C09": ("TLC shows the layout is a function of the text for every structural model and - on the free-schedule variant of the specification - produces the models on which set-iteration order would change the layout; those witnesses, a structural sample and the repository's models are generated in fresh processes under different PYTHONHASHSEED values and must be byte-identical (each process takes the texts in its own order); hook traces give the order in which dependency sets reach the sorter and, when it varies, MC_Sched.tla decides whether a layout-changing order exists; call histories generated from Session.tla are replayed in one process",
-         "hash seeds sampled (6 quick / 32 thorough); histories of length <= 3", TECH + "schedule exploration in the specification, cross-process replay, hook traces", "6 C09"),
+         "hash seeds sampled (6 quick / 32 thorough); replayed histories of length <= 3 (history independence of get_scheme is also PROVED for every length: spec/proofs/SessionProof.tla, TLAPS, recorded in the evidence); every load of every check is preceded by a primer load in the same process", TECH + "schedule exploration in the specification, cross-process replay, hook traces, TLAPS proof of the session invariant", "6 C09"),
  "C10": ("TLC applies block / entry / line permutations (also across comment lines, also inside one headed component) to sampled structural models and checks model and layout equality on the specification; both texts are loaded in the real library and compared (ODE equality, bytes of numpy / C output)",
          "one permutation step per text (swaps, reversal, rotation generate the group)", TECH + "spec-to-code replay", "6 C10"),
  "C11": ("every construct of the expression corpus and every structural model (components, units, descriptions) goes through save -> load -> generate -> evaluate and is compared with the specification's values by name; declared atoms (names, kinds, defaults, units, descriptions, components) of the reloaded model are compared with the declaration; Myokit-imported models are evaluated before saving and after reload",
-         "the specification's share is the expected observation and the enumeration (Save is the identity on the abstract model)", TECH + "spec-to-code replay through save/load", "6 C11"),
+         "the specification's share is the expected observation and the enumeration (Save is the identity on the abstract model); component layouts incl. a headed component followed by a header-less one; loadable file-level strings of MC_File (atoms in several components, two-name headers, assignments before declarations)", TECH + "spec-to-code replay through save/load", "6 C11"),
  "C13": ("TLC checks on every two-component structural model that both halves of a split have exactly the missing variables they use but do not define, partition the states, and - executed with the other half's values - reproduce the full model (rhs, monitor, Euler, missing_values); the real to_ode() / model - C halves are generated for numpy, jax and C and compared by name; emitted code of the repository's split example is trace-validated",
          "two components; missing values fed from the full model's meaning", TECH + "spec-to-code replay + trace validation", "6 C13"),
  "C14": ("batch semantics = map of the scalar semantics: every generated function is called once with (n, N) arrays whose columns are the specification's input points (per-column parameters and time) for the expression corpus, the rate templates of all schemes and structural models (also with the generator's shape option); column j is compared with the specification's value for point j",
